@@ -30,6 +30,8 @@ ASSUMPTIONS = [
     "a case that exceeds the per-case watchdog is inconclusive, never a violation",
 ]
 BUDGET = {"quick": 900, "thorough": 18000}
+# coverage-guided twins (thorough tier): part name -> executions per shard; see core.cover
+COVER = {"mutation": 3000, "targeted": 2000}
 
 ROOT = "ns"
 
